@@ -146,6 +146,9 @@ impl Iso {
                         if n0 == n1 {
                             let r = is_isomorphic(g0, g1);
                             check_d("is_isomorphic/iff_bijection_exists", &if r { sub_spec.clone() } else { not(&sub_spec) }, &format!("returned {}", r));
+                        } else if is_isomorphic(g0, g1) || is_isomorphic(g1, g0) {
+                            // graphs of different order are never isomorphic, whatever embeds into what
+                            fail("is_isomorphic/false_for_different_orders", &format!("true for {} and {} nodes", n0, n1));
                         }
                     }
                     Mode::Matching => {
@@ -154,6 +157,8 @@ impl Iso {
                         if n0 == n1 {
                             let r = is_isomorphic_matching(g0, g1, node_match, edge_match);
                             check_d("is_isomorphic_matching/iff_bijection_respecting_predicates", &if r { sub_spec.clone() } else { not(&sub_spec) }, &format!("returned {}", r));
+                        } else if is_isomorphic_matching(g0, g1, node_match, edge_match) {
+                            fail("is_isomorphic_matching/false_for_different_orders", &format!("true for {} and {} nodes", n0, n1));
                         }
                     }
                     Mode::Iter => {
@@ -222,6 +227,9 @@ impl Iso {
                 if n0 == n1 && is_isomorphic(&g0, &g1) != exists {
                     return Replay::Reproduced("is_isomorphic/wrong".into(), format!("{}: isomorphism exists = {}", desc, exists));
                 }
+                if n0 != n1 && (is_isomorphic(&g0, &g1) || is_isomorphic(&g1, &g0)) {
+                    return Replay::Reproduced("is_isomorphic/true-for-different-orders".into(), desc);
+                }
             }
             Mode::Matching => {
                 let s = is_isomorphic_subgraph_matching(&g0, &g1, |a, b| nmv(*a, *b), |a, b| emv(*a, *b));
@@ -230,6 +238,9 @@ impl Iso {
                 }
                 if n0 == n1 && is_isomorphic_matching(&g0, &g1, |a, b| nmv(*a, *b), |a, b| emv(*a, *b)) != exists {
                     return Replay::Reproduced("is_isomorphic_matching/wrong".into(), format!("{}: isomorphism exists = {}", desc, exists));
+                }
+                if n0 != n1 && is_isomorphic_matching(&g0, &g1, |a, b| nmv(*a, *b), |a, b| emv(*a, *b)) {
+                    return Replay::Reproduced("is_isomorphic_matching/true-for-different-orders".into(), desc);
                 }
             }
             Mode::Iter => {
